@@ -178,9 +178,6 @@ def harness(prog, dag, cls, mode, K):
             return None
         if bad in ("INVALID-PROGRAM", "INCONCLUSIVE-ARITHMETIC"):
             return "invalid"
-        if ex.path_tainted:
-            ex.stats.undecided += 1
-            return None
         m = state["model"] or ex.path_model()
         return {"prog": prog, "mode": mode, "K": K, "problem": bad,
                 "init": concrete_init(prog, m), "ufs": backends.uf_tables_from_model(m) if m is not None else {}}
@@ -227,6 +224,7 @@ def check_program(prog, modes, K, max_paths):
     invalid = 0
     for mode in modes:
         ex = Explorer(timeout_ms=1500, max_paths=max_paths, max_decisions=250, wall_s=20)
+        ex.label = "%s/%s" % (prog.get("name"), mode)
         res = ex.explore(harness(prog, dag, cls, mode, K))
         st.add(ex.stats)
         paths += ex.stats.paths
